@@ -230,6 +230,38 @@ func genRFFlips(r *vh.Rand, f []byte, payloadLen int, all bool) []string {
 	return cases
 }
 
+// genRFTailSweep: every bit of the last 20 bytes of the file (last block CRC, tail length
+// field, magic), each through the reader (whole payload +
+// one more Read), the validator with the whole stream as one chunk and the validator with
+// a chunking. Used for payload lengths whose last block is 2^k bytes on disk, where one
+// tail length bit names another valid block boundary.
+func genRFTailSweep(r *vh.Rand, f []byte, payloadLen int) []string {
+	var cases []string
+	var ops []string
+	flush := func() {
+		if len(ops) > 0 {
+			cases = append(cases, "RF | file "+vh.Hex(f)+" ; "+strings.Join(ops, " ; "))
+			ops = nil
+		}
+	}
+	lo := 8 * (len(f) - 20) // the 16 byte tail and the CRC of the last block
+	if lo < 8*1024 {
+		lo = 8 * 1024
+	}
+	for b := lo; b < 8*len(f); b++ {
+		ch := chunking(r, len(f))
+		if ch[0] < 1024 {
+			ch[0] = 1024
+		}
+		ops = append(ops, fmt.Sprintf("fo %d %d", b, payloadLen+1), fmt.Sprintf("fv %d %d", b, len(f)), fmt.Sprintf("fv %d %s", b, intsStr(ch)))
+		if len(ops) >= 192 {
+			flush()
+		}
+	}
+	flush()
+	return cases
+}
+
 func genRFTrunc(r *vh.Rand, f []byte, payloadLen int, all bool) []string {
 	var lens []int
 	for l := 1024; l < len(f); l++ {
@@ -382,6 +414,16 @@ func gen(a vh.Args) {
 			emit(s)
 		}
 	}
+	// tail sweep: payload lengths 2^k-4 (last block 2^k bytes on disk) and neighbours
+	tails := []int{0, 12, 28, 60, 124, 13}
+	if a.Tier == "thorough" {
+		tails = append(tails, 4, 11, 61, 252, 508, 1020, 2044, 4092, 59, 1021)
+	}
+	for _, n := range tails {
+		for _, s := range genRFTailSweep(r, realFile(2, 0, r.Bytes(n)), n) {
+			emit(s)
+		}
+	}
 	// a shrunk file, and shrinking it again
 	{
 		fs := newFS()
@@ -395,9 +437,10 @@ func gen(a vh.Args) {
 	}
 	// real block size, multi-block (monitor only)
 	bsz := int(c14.BlockSize())
-	bg := [][]int{{bsz + 100, bsz + 100}, {2*bsz + bsz/2 + 7, 4 * bsz}, {2*bsz + 4, bsz, bsz + 4}, {3 * bsz, 1000, 4 * bsz}}
+	// bsz+60, 2*bsz+1020: the last block is 2^k bytes on disk (tail bit sweep in runBG)
+	bg := [][]int{{bsz + 60, bsz + 100}, {2*bsz + bsz/2 + 7, 4 * bsz}, {2*bsz + 4, bsz, bsz + 4}, {2*bsz + 1020, 1000, 4 * bsz}, {3 * bsz, 1000, 4 * bsz}, {bsz + 100, bsz + 100}}
 	if a.Tier != "thorough" {
-		bg = bg[:3]
+		bg = bg[:4]
 	}
 	for _, c := range bg {
 		emit(fmt.Sprintf("BG %d %d %s", r.U64()>>1, c[0], intsStr(c[1:])))
